@@ -373,9 +373,9 @@ Lemma routing_deliver : forall s t id st s', step s (WDeliver t id st) = Some s'
                  ints s' = upd_rec id (set_deliver st rest) (ints s).
 Proof.
   intros s t id st s' H. unfold step in H. simpl in H.
-  destruct (find id (ints s)) as [w|]; [|discriminate]. destruct (w_frame w) as [[|x rest]|]; try discriminate.
+  destruct (find id (ints s)) as [w|] eqn:Ef; [|discriminate]. destruct (w_frame w) as [[|x rest]|] eqn:Efr; try discriminate.
   destruct ((w_thr w =? t) && (x =? st)) eqn:E; [|discriminate]. apply andb_true_iff in E. destruct E as [E1 E2]. zb. subst.
-  inversion H; subst. exists w, rest. auto.
+  inversion H; subst. exists w, rest. repeat split; auto.
 Qed.
 
 (* when every thread has come to rest nothing reaped is undelivered *)
@@ -452,29 +452,31 @@ Qed.
 (* ---------- the monitor accepts every accepted sequence ---------- *)
 Definition proj (s : state) : mstate := {| m_ints := ints s; m_reaped := reaped s; m_fork := spawning s |}.
 
+Ltac pfin H := inversion H; subst; simpl; repeat match goal with E : spawning _ = _ |- _ => rewrite E end; reflexivity.
+
 Lemma proj_step : forall s l s', Inv s -> step s l = Some s' -> mstep (proj s) l = Some (proj s').
 Proof.
-  intros s l s' HI H. unfold step in H. destruct l; simpl in H |- *.
-  - dmatch H. inversion H; subst. reflexivity.
-  - dmatch H. inversion H; subst. reflexivity.
-  - dmatch H. inversion H; subst. reflexivity.
-  - dmatch H. inversion H; subst. reflexivity.
-  - destruct (holds s t); [|discriminate]. destruct (spawning s) as [[[a b] c]|]; [|discriminate].
-    destruct ((a =? t) && (b =? id)); [|discriminate]. inversion H; subst. reflexivity.
-  - destruct (holds s t); [|discriminate]. destruct (spawning s); [discriminate|].
+  intros s l s' HI H. unfold step in H. unfold proj. destruct l; simpl in H |- *.
+  - dmatch H. pfin H.
+  - dmatch H. pfin H.
+  - dmatch H. pfin H.
+  - dmatch H. pfin H.
+  - destruct (holds s t); [|discriminate]. destruct (spawning s) as [[[a b] c]|] eqn:Esp; [|discriminate].
+    destruct ((a =? t) && (b =? id)); [|discriminate]. pfin H.
+  - destruct (holds s t); [|discriminate]. destruct (spawning s) eqn:Esp; [discriminate|].
     destruct (mem pid (reaped s)); [discriminate|]. unfold reap_one in H.
-    destruct (find_pid pid (ints s)); [inversion H; subst; reflexivity|].
-    destruct (is_dead st); inversion H; subst; reflexivity.
+    destruct (find_pid pid (ints s)); [pfin H|].
+    destruct (is_dead st); pfin H.
   - destruct (holds s t); [|discriminate]. destruct (find id (ints s)) as [w|]; [|discriminate].
-    destruct ((w_thr w =? t) && thread_frames_done t (ints s)); [|discriminate]. inversion H; subst. reflexivity.
+    destruct ((w_thr w =? t) && thread_frames_done t (ints s)); [|discriminate]. pfin H.
   - destruct (find id (ints s)) as [w|]; [|discriminate]. destruct (w_frame w) as [[|x rest]|]; try discriminate.
-    destruct ((w_thr w =? t) && (x =? st)); [|discriminate]. inversion H; subst. reflexivity.
+    destruct ((w_thr w =? t) && (x =? st)); [|discriminate]. pfin H.
   - destruct (holds s t); [|discriminate]. destruct (find id (ints s)) as [w|]; [|discriminate].
-    destruct (w_thr w =? t); [|discriminate]. inversion H; subst. reflexivity.
+    destruct (w_thr w =? t); [|discriminate]. pfin H.
   - destruct (holds s t); [|discriminate]. destruct (find id (ints s)) as [w|] eqn:Ef; [|discriminate].
     destruct (Bool.eqb performed (negb (w_dead w))) eqn:E; [|discriminate]. inversion H; subst.
     destruct (find_in _ _ _ Ef) as [Hw _]. rewrite <- (i_dead s' HI w Hw), E. reflexivity.
-  - destruct (quiet_thread t (ints s)); [|discriminate]. inversion H; subst. reflexivity.
+  - destruct (quiet_thread t (ints s)); [|discriminate]. pfin H.
 Qed.
 
 Theorem monitor_accepts : forall ls, accepts ls = true -> monitor ls = true.
